@@ -99,6 +99,10 @@ pub fn eval_v<A: HC>(v: &V) -> R<Seq<A>> {
                 "string" => Seq::<A>::try_from(utf8()?)?,
                 "refstring" => Seq::<A>::try_from(&utf8()?)?,
                 "fromstr" => Seq::<A>::from_str(utf8()?.as_str())?,
+                // the other spellings of the same entry point: `str::parse`, the trait path, TryFrom by trait path
+                "parse" => utf8()?.as_str().parse::<Seq<A>>()?,
+                "fromstrtrait" => <Seq<A> as FromStr>::from_str(utf8()?.as_str())?,
+                "tryfromtrait" => <Seq<A> as TryFrom<&str>>::try_from(utf8()?.as_str())?,
                 "bytes" => Seq::<A>::try_from(bytes.as_slice())?,
                 "vec" => Seq::<A>::try_from(bytes.clone())?,
                 "collect" => syms_of_ascii::<A>(bytes)?.into_iter().collect::<Seq<A>>(),
@@ -482,8 +486,14 @@ pub fn query<A: HC>(q: &str, t: &mut Toks) -> R<String> {
             let g = |o: Option<A>| o.map(|s| format!("{:02x}", s.to_bits())).unwrap_or("none".into());
             let n = v.len();
             let w = (i % 3) + 1;
+            // indexing written directly on the owned value (an `Index` impl on `Seq` itself would take precedence)
+            let idx = if i <= n {
+                format!("{} {} {} {}", content(&v[i / 2..i]), content(&v[i / 2..]), content(&r[..i]), content(&v[..]))
+            } else {
+                "- - - -".to_string()
+            };
             format!(
-                "{} {} {} {} {} {} {} {} {} {} {} {} {} {}",
+                "{} {} {} {} {} {} {} {} {} {} {} {} {} {} {idx}",
                 v.len(),
                 r.is_empty(),
                 g(v.get(i)),
